@@ -3,7 +3,7 @@
 # usage: run_seeds.sh [seed ids...]
 cd /verif
 [ -n "$(git -C /repo status --porcelain)" ] && { echo "/repo is not clean"; exit 2; }
-SEEDS="${@:-$(ls seeded)}"
+SEEDS="${@:-$(cd seeded && ls -d */ | tr -d /)}"
 for s in $SEEDS; do
   d=seeded/$s
   git -C /repo apply "$PWD/$d/patch.diff" || { echo "$s: patch does not apply"; continue; }
